@@ -29,21 +29,47 @@ type op struct {
 	a, b int
 }
 
+// recipe is the shape of a run's shared world, drawn from the choice stream (swarm): how many
+// keys and messages there are, where each public key object comes from (decoded = affine
+// coordinates; aggregated / subtracted / threshold key generation = whatever representation the
+// library's group arithmetic leaves behind), whether messages and signatures are exact-size
+// allocations or sub-slices of one arena with spare capacity behind them, and which defective
+// couples the batch-verification lists contain.
+type recipe struct {
+	nk, nm   int
+	derived  []int // per derived key: 0 aggregated(a,b), 1 removed(a+b+c, c), 2 threshold key share
+	arena    bool  // messages are consecutive sub-slices of one buffer (cap reaches into the next message)
+	sigArena bool
+	batch    []int // per batch list: 0 all valid, 1 wrong message, 2 identity key, 3.. wrong-length signature (0,47,49)
+}
+
+type batchList struct {
+	pks  []crypto.PublicKey
+	sigs []crypto.Signature
+}
+
 type world struct {
+	rc recipe
 	// BLS
-	sks      []crypto.PrivateKey
-	pks      []crypto.PublicKey
-	msgs     [][]byte
-	sigs     [][]crypto.Signature // sigs[key][msg]
-	pops     []crypto.Signature
-	kmac     hash.Hasher // shared BLS hasher
-	rawKmac  hash.Hasher // shared plain KMAC128 instance
-	kmacKey  []byte
-	kmacSize int
-	aggSig   crypto.Signature
-	manySig  crypto.Signature
-	spock    []crypto.Signature
-	batchBad []crypto.Signature
+	sks       []crypto.PrivateKey
+	pks       []crypto.PublicKey
+	msgs      [][]byte
+	msgArena  []byte
+	sigArena  []byte
+	sigs      [][]crypto.Signature // sigs[key][msg]
+	pops      []crypto.Signature
+	kmac      hash.Hasher // shared BLS hasher
+	rawKmac   hash.Hasher // shared plain KMAC128 instance
+	kmacKey   []byte
+	kmacSize  int
+	aggSig    crypto.Signature
+	aggKeys   []crypto.PublicKey
+	manySig   crypto.Signature
+	manyKeys  []crypto.PublicKey
+	manyMsgs  [][]byte
+	manyHs    []hash.Hasher
+	spock     []crypto.Signature
+	batches   []batchList
 	// ECDSA
 	esk  [2]crypto.PrivateKey
 	epk  [2]crypto.PublicKey
@@ -56,121 +82,227 @@ func must(err error) {
 	}
 }
 
-func setup(rnd *choice.Src) (*world, error) {
-	w := &world{}
-	var err error
+// material is what both worlds (reference and concurrent) are built from: plain bytes.
+type material struct {
+	baseSK   [][]byte // encoded base private keys
+	thrSeed  []byte
+	msgs     [][]byte
+	kmacKey  []byte
+	kmacSize int
+	ecdsaSK  [2][]byte
+	// signatures are computed once (reference world) and copied
+	sigs  [][][]byte
+	pops  [][]byte
+	spock [][]byte
+	esig  [2][][]byte
+}
+
+func drawRecipe(c *choice.Src) recipe {
+	rc := recipe{nk: 3 + c.Choose(2, "nkeys"), nm: 3 + c.Choose(3, "nmsgs")}
+	nd := c.Choose(3, "nderived")
+	for i := 0; i < nd; i++ {
+		rc.derived = append(rc.derived, c.Choose(3, "derived.kind"))
+	}
+	rc.arena = c.Bool(1, 2, "msg.arena")
+	rc.sigArena = c.Bool(1, 2, "sig.arena")
+	nb := 1 + c.Choose(3, "nbatch")
+	for i := 0; i < nb; i++ {
+		rc.batch = append(rc.batch, c.Choose(6, "batch.kind"))
+	}
+	return rc
+}
+
+// build constructs a world from plain material. With mat.sigs == nil the signatures are
+// computed (reference world) and stored into mat; otherwise they are copied from it.
+func build(rc recipe, mat *material) (w *world, err error) {
 	defer func() {
 		if r := recover(); r != nil {
 			err = fmt.Errorf("%v", r)
 		}
 	}()
+	w = &world{rc: rc, kmacKey: mat.kmacKey, kmacSize: mat.kmacSize}
 	w.kmac = crypto.NewExpandMsgXOFKMAC128("roconc-tag")
-	w.kmacKey, w.kmacSize = rnd.Bytes(16), 32+rnd.Intn(100)
-	w.rawKmac, err = hash.NewKMAC_128(w.kmacKey, []byte("custom"), w.kmacSize)
+	w.rawKmac, err = hash.NewKMAC_128(mat.kmacKey, []byte("custom"), mat.kmacSize)
 	must(err)
 	// the shared instance has pending Write data: ComputeHash must neither use nor disturb it
 	_, _ = w.rawKmac.Write([]byte("pending data written before the concurrent run"))
-	nk := 3
-	for i := 0; i < 4; i++ {
-		w.msgs = append(w.msgs, rnd.Bytes(1+rnd.Intn(200)))
+	// messages
+	if rc.arena {
+		tot := 0
+		for _, m := range mat.msgs {
+			tot += len(m)
+		}
+		w.msgArena = make([]byte, tot+64)
+		for i := range w.msgArena {
+			w.msgArena[i] = 0xEE // guard pattern behind the last message
+		}
+		off := 0
+		for _, m := range mat.msgs {
+			copy(w.msgArena[off:], m)
+			w.msgs = append(w.msgs, w.msgArena[off:off+len(m)]) // cap reaches to the end of the arena
+			off += len(m)
+		}
+	} else {
+		for _, m := range mat.msgs {
+			w.msgs = append(w.msgs, cp(m))
+		}
 	}
-	for i := 0; i < nk; i++ {
-		sk, err := crypto.GeneratePrivateKey(crypto.BLSBLS12381, rnd.Bytes(32))
+	// base keys: decoded from their encodings (fresh objects, affine coordinates)
+	for _, b := range mat.baseSK {
+		sk, err := crypto.DecodePrivateKey(crypto.BLSBLS12381, b)
 		must(err)
-		w.sks = append(w.sks, sk)
-		w.pks = append(w.pks, sk.PublicKey())
-		var row []crypto.Signature
-		for _, m := range w.msgs {
-			s, err := sk.Sign(m, w.kmac)
+		pk, err := crypto.DecodePublicKey(crypto.BLSBLS12381, sk.PublicKey().Encode())
+		must(err)
+		w.sks, w.pks = append(w.sks, sk), append(w.pks, pk)
+	}
+	// derived keys: objects produced by the library's own group arithmetic
+	for j, kind := range rc.derived {
+		a, b, c3 := j%rc.nk, (j+1)%rc.nk, (j+2)%rc.nk
+		switch kind {
+		case 0:
+			sk, err := crypto.AggregateBLSPrivateKeys([]crypto.PrivateKey{w.sks[a], w.sks[b]})
 			must(err)
-			row = append(row, s)
+			pk, err := crypto.AggregateBLSPublicKeys([]crypto.PublicKey{w.pks[a], w.pks[b]})
+			must(err)
+			w.sks, w.pks = append(w.sks, sk), append(w.pks, pk)
+		case 1:
+			sk, err := crypto.AggregateBLSPrivateKeys([]crypto.PrivateKey{w.sks[a], w.sks[b]})
+			must(err)
+			all, err := crypto.AggregateBLSPublicKeys([]crypto.PublicKey{w.pks[a], w.pks[b], w.pks[c3]})
+			must(err)
+			pk, err := crypto.RemoveBLSPublicKeys(all, []crypto.PublicKey{w.pks[c3]})
+			must(err)
+			w.sks, w.pks = append(w.sks, sk), append(w.pks, pk)
+		default:
+			tsks, tpks, _, err := crypto.BLSThresholdKeyGen(3, 1, mat.thrSeed)
+			must(err)
+			w.sks, w.pks = append(w.sks, tsks[j%3]), append(w.pks, tpks[j%3])
+		}
+	}
+	nkeys := len(w.sks)
+	// signatures, PoPs, SPoCK proofs
+	first := mat.sigs == nil
+	if first {
+		for i := 0; i < nkeys; i++ {
+			var row [][]byte
+			for _, m := range mat.msgs {
+				s, err := w.sks[i].Sign(m, crypto.NewExpandMsgXOFKMAC128("roconc-tag"))
+				must(err)
+				row = append(row, s)
+			}
+			mat.sigs = append(mat.sigs, row)
+			pop, err := crypto.BLSGeneratePOP(w.sks[i])
+			must(err)
+			mat.pops = append(mat.pops, pop)
+			sp, err := crypto.SPOCKProve(w.sks[i], mat.msgs[0], crypto.NewExpandMsgXOFKMAC128("roconc-tag"))
+			must(err)
+			mat.spock = append(mat.spock, sp)
+		}
+	}
+	if rc.sigArena {
+		w.sigArena = make([]byte, 48*nkeys*len(mat.msgs)+32)
+		for i := range w.sigArena {
+			w.sigArena[i] = 0xDD
+		}
+	}
+	for i := 0; i < nkeys; i++ {
+		var row []crypto.Signature
+		for j := range mat.msgs {
+			if rc.sigArena {
+				off := 48 * (i*len(mat.msgs) + j)
+				copy(w.sigArena[off:], mat.sigs[i][j])
+				row = append(row, crypto.Signature(w.sigArena[off:off+48]))
+			} else {
+				row = append(row, cp(mat.sigs[i][j]))
+			}
 		}
 		w.sigs = append(w.sigs, row)
-		pop, err := crypto.BLSGeneratePOP(sk)
-		must(err)
-		w.pops = append(w.pops, pop)
-		sp, err := crypto.SPOCKProve(sk, w.msgs[0], w.kmac)
-		must(err)
-		w.spock = append(w.spock, sp)
+		w.pops = append(w.pops, cp(mat.pops[i]))
+		w.spock = append(w.spock, cp(mat.spock[i]))
 	}
-	var one []crypto.Signature
-	for i := 0; i < nk; i++ {
+	// aggregated signature of all keys on message 0, and of key i on message i
+	var one, many []crypto.Signature
+	for i := 0; i < nkeys; i++ {
 		one = append(one, w.sigs[i][0])
+		many = append(many, w.sigs[i][i%rc.nm])
+		w.manyMsgs = append(w.manyMsgs, w.msgs[i%rc.nm])
+		w.manyHs = append(w.manyHs, w.kmac)
 	}
+	w.aggKeys = append([]crypto.PublicKey(nil), w.pks...)
+	w.manyKeys = append([]crypto.PublicKey(nil), w.pks...)
 	w.aggSig, err = crypto.AggregateBLSSignatures(one)
 	must(err)
-	var many []crypto.Signature
-	for i := 0; i < nk; i++ {
-		many = append(many, w.sigs[i][i])
-	}
 	w.manySig, err = crypto.AggregateBLSSignatures(many)
 	must(err)
-	w.batchBad = append([]crypto.Signature(nil), one...)
-	w.batchBad[1] = w.sigs[1][1] // wrong message: invalid at index 1
-	for k, alg := range []crypto.SigningAlgorithm{crypto.ECDSAP256, crypto.ECDSASecp256k1} {
-		sk, err := crypto.GeneratePrivateKey(alg, rnd.Bytes(32))
-		must(err)
-		w.esk[k], w.epk[k] = sk, sk.PublicKey()
-		for _, m := range w.msgs {
-			s, err := sk.Sign(m, hash.NewSHA3_256())
-			must(err)
-			w.esig[k] = append(w.esig[k], s)
+	// batch-verification lists (shared objects: the same list is handed to every call)
+	for bi, kind := range rc.batch {
+		bl := batchList{pks: append([]crypto.PublicKey(nil), w.pks...)}
+		for i := 0; i < nkeys; i++ {
+			bl.sigs = append(bl.sigs, w.sigs[i][0])
 		}
-	}
-	return w, err
-}
-
-func cp(b []byte) []byte { return append([]byte(nil), b...) }
-
-func cpSigs(l []crypto.Signature) []crypto.Signature {
-	o := make([]crypto.Signature, len(l))
-	for i := range l {
-		o[i] = cp(l[i])
-	}
-	return o
-}
-
-// fresh builds a second world with the same values but FRESH objects: keys decoded from their
-// encodings (never used before, so lazily filled caches inside key objects are still empty),
-// new hasher instances, copied byte slices. The concurrent run uses the fresh world; the
-// sequential baseline uses the original one.
-func (a *world) fresh() (w *world, err error) {
-	defer func() {
-		if r := recover(); r != nil {
-			err = fmt.Errorf("%v", r)
+		pos := (bi + 1) % nkeys
+		switch kind {
+		case 0:
+		case 1:
+			bl.sigs[pos] = w.sigs[pos][1] // signature of another message
+		case 2:
+			bl.pks[pos] = crypto.IdentityBLSPublicKey()
+		case 3:
+			bl.sigs[pos] = bl.sigs[pos][:0:0]
+		case 4:
+			bl.sigs[pos] = cp(bl.sigs[pos][:47])
+		default:
+			bl.sigs[pos] = append(cp(bl.sigs[pos]), 0)
 		}
-	}()
-	w = &world{kmacKey: a.kmacKey, kmacSize: a.kmacSize}
-	w.kmac = crypto.NewExpandMsgXOFKMAC128("roconc-tag")
-	w.rawKmac, err = hash.NewKMAC_128(a.kmacKey, []byte("custom"), a.kmacSize)
-	must(err)
-	_, _ = w.rawKmac.Write([]byte("pending data written before the concurrent run"))
-	for _, m := range a.msgs {
-		w.msgs = append(w.msgs, cp(m))
+		w.batches = append(w.batches, bl)
 	}
-	for i := range a.sks {
-		sk, err := crypto.DecodePrivateKey(crypto.BLSBLS12381, a.sks[i].Encode())
-		must(err)
-		pk, err := crypto.DecodePublicKey(crypto.BLSBLS12381, a.pks[i].Encode())
-		must(err)
-		w.sks = append(w.sks, sk)
-		w.pks = append(w.pks, pk)
-		w.sigs = append(w.sigs, cpSigs(a.sigs[i]))
-	}
-	w.pops, w.spock, w.batchBad = cpSigs(a.pops), cpSigs(a.spock), cpSigs(a.batchBad)
-	w.aggSig, w.manySig = cp(a.aggSig), cp(a.manySig)
+	// ECDSA
 	for k, alg := range []crypto.SigningAlgorithm{crypto.ECDSAP256, crypto.ECDSASecp256k1} {
-		sk, err := crypto.DecodePrivateKey(alg, a.esk[k].Encode())
+		sk, err := crypto.DecodePrivateKey(alg, mat.ecdsaSK[k])
 		must(err)
-		pk, err := crypto.DecodePublicKey(alg, a.epk[k].Encode())
+		pk, err := crypto.DecodePublicKey(alg, sk.PublicKey().Encode())
 		must(err)
 		w.esk[k], w.epk[k] = sk, pk
-		w.esig[k] = cpSigs(a.esig[k])
+		if first {
+			for _, m := range mat.msgs {
+				s, err := sk.Sign(m, hash.NewSHA3_256())
+				must(err)
+				mat.esig[k] = append(mat.esig[k], s)
+			}
+		}
+		for _, s := range mat.esig[k] {
+			w.esig[k] = append(w.esig[k], cp(s))
+		}
 	}
 	return w, nil
 }
 
-var opNames = []string{"kmac.ComputeHash", "bls.Sign", "bls.Verify", "bls.VerifyWrong", "BLSVerifyPOP", "SPOCKVerify", "VerifyOneMessage", "VerifyManyMessages", "BatchVerify", "ecdsa.Sign", "ecdsa.Verify", "blshasher.ComputeHash"}
+func newMaterial(rc recipe, rnd *choice.Src) (mat *material, err error) {
+	defer func() {
+		if r := recover(); r != nil {
+			err = fmt.Errorf("%v", r)
+		}
+	}()
+	mat = &material{kmacKey: rnd.Bytes(16), kmacSize: 32 + rnd.Intn(100), thrSeed: rnd.Bytes(32)}
+	for i := 0; i < rc.nm; i++ {
+		mat.msgs = append(mat.msgs, rnd.Bytes(1+rnd.Intn(200)))
+	}
+	for i := 0; i < rc.nk; i++ {
+		sk, err := crypto.GeneratePrivateKey(crypto.BLSBLS12381, rnd.Bytes(32))
+		must(err)
+		mat.baseSK = append(mat.baseSK, sk.Encode())
+	}
+	for k, alg := range []crypto.SigningAlgorithm{crypto.ECDSAP256, crypto.ECDSASecp256k1} {
+		sk, err := crypto.GeneratePrivateKey(alg, rnd.Bytes(32))
+		must(err)
+		mat.ecdsaSK[k] = sk.Encode()
+	}
+	return mat, nil
+}
+
+func cp(b []byte) []byte { return append(make([]byte, 0, len(b)), b...) }
+
+var opNames = []string{"kmac.ComputeHash", "bls.Sign", "bls.Verify", "bls.VerifyWrong", "BLSVerifyPOP", "SPOCKVerify", "VerifyOneMessage", "VerifyManyMessages", "BatchVerify", "ecdsa.Sign", "ecdsa.Verify", "blshasher.ComputeHash", "SPOCKVerifyAgainstData"}
 
 // exec performs an operation and returns a canonical result string. Deterministic operations
 // return their bytes; ECDSA Sign (randomised) is checked by verification.
@@ -180,87 +312,108 @@ func (w *world) exec(o op, own hash.Hasher) (res string) {
 			res = fmt.Sprintf("PANIC: %v", r)
 		}
 	}()
+	nk, nm := len(w.pks), len(w.msgs)
+	ka, kb, ma, mb := o.a%nk, o.b%nk, o.a%nm, o.b%nm
 	switch o.name {
 	case "kmac.ComputeHash":
-		return hex.EncodeToString(w.rawKmac.ComputeHash(w.msgs[o.a]))
+		return hex.EncodeToString(w.rawKmac.ComputeHash(w.msgs[ma]))
 	case "blshasher.ComputeHash":
-		return hex.EncodeToString(w.kmac.ComputeHash(w.msgs[o.a]))
+		return hex.EncodeToString(w.kmac.ComputeHash(w.msgs[ma]))
 	case "bls.Sign":
-		s, err := w.sks[o.a].Sign(w.msgs[o.b], w.kmac)
+		s, err := w.sks[ka].Sign(w.msgs[mb], w.kmac)
 		return fmt.Sprintf("%x %v", []byte(s), err)
 	case "bls.Verify":
-		ok, err := w.pks[o.a].Verify(w.sigs[o.a][o.b], w.msgs[o.b], w.kmac)
+		ok, err := w.pks[ka].Verify(w.sigs[ka][mb], w.msgs[mb], w.kmac)
 		return fmt.Sprint(ok, err)
 	case "bls.VerifyWrong":
-		ok, err := w.pks[o.a].Verify(w.sigs[o.a][o.b], w.msgs[(o.b+1)%len(w.msgs)], w.kmac)
+		ok, err := w.pks[ka].Verify(w.sigs[ka][mb], w.msgs[(mb+1)%nm], w.kmac)
 		return fmt.Sprint(ok, err)
 	case "BLSVerifyPOP":
-		ok, err := crypto.BLSVerifyPOP(w.pks[o.a], w.pops[(o.a+o.b%2)%len(w.pops)])
+		ok, err := crypto.BLSVerifyPOP(w.pks[ka], w.pops[(ka+o.b%2)%len(w.pops)])
 		return fmt.Sprint(ok, err)
 	case "SPOCKVerify":
-		ok, err := crypto.SPOCKVerify(w.pks[o.a], w.spock[o.a], w.pks[o.b%len(w.pks)], w.spock[o.b%len(w.pks)])
+		ok, err := crypto.SPOCKVerify(w.pks[ka], w.spock[ka], w.pks[kb], w.spock[kb])
+		return fmt.Sprint(ok, err)
+	case "SPOCKVerifyAgainstData":
+		ok, err := crypto.SPOCKVerifyAgainstData(w.pks[ka], w.spock[ka], w.msgs[o.b%2], w.kmac)
 		return fmt.Sprint(ok, err)
 	case "VerifyOneMessage":
-		ok, err := crypto.VerifyBLSSignatureOneMessage(w.pks, w.aggSig, w.msgs[o.a%2], w.kmac)
+		ok, err := crypto.VerifyBLSSignatureOneMessage(w.aggKeys, w.aggSig, w.msgs[o.a%2], w.kmac)
 		return fmt.Sprint(ok, err)
 	case "VerifyManyMessages":
-		hs := []hash.Hasher{w.kmac, w.kmac, w.kmac}
-		ok, err := crypto.VerifyBLSSignatureManyMessages(w.pks, w.manySig, w.msgs[:3], hs)
+		ok, err := crypto.VerifyBLSSignatureManyMessages(w.manyKeys, w.manySig, w.manyMsgs, w.manyHs)
 		return fmt.Sprint(ok, err)
 	case "BatchVerify":
-		sigs := w.batchBad
-		if o.a%2 == 0 {
-			sigs = []crypto.Signature{w.sigs[0][0], w.sigs[1][0], w.sigs[2][0]}
-		}
-		ok, err := crypto.BatchVerifyBLSSignaturesOneMessage(w.pks, sigs, w.msgs[0], w.kmac)
+		bl := w.batches[o.a%len(w.batches)]
+		ok, err := crypto.BatchVerifyBLSSignaturesOneMessage(bl.pks, bl.sigs, w.msgs[0], w.kmac)
 		return fmt.Sprint(ok, err)
 	case "ecdsa.Sign":
 		k := o.a % 2
-		s, err := w.esk[k].Sign(w.msgs[o.b], own)
+		s, err := w.esk[k].Sign(w.msgs[mb], own)
 		if err != nil {
 			return "err " + err.Error()
 		}
-		ok, err := w.epk[k].Verify(s, w.msgs[o.b], own)
+		ok, err := w.epk[k].Verify(s, w.msgs[mb], own)
 		return fmt.Sprint("signed-and-verifies ", ok, err)
 	case "ecdsa.Verify":
 		k := o.a % 2
-		ok, err := w.epk[k].Verify(w.esig[k][o.b], w.msgs[(o.b+o.a/2)%len(w.msgs)], own)
+		ok, err := w.epk[k].Verify(w.esig[k][mb], w.msgs[(mb+o.a/2)%nm], own)
 		return fmt.Sprint(ok, err)
 	}
 	return "?"
 }
 
-// snapshot captures everything that must not change.
+// snapshot captures everything that must not change: every argument buffer including the
+// spare capacity behind it (arenas and guard bytes), the elements of the shared lists, the
+// encodings of all keys and the outputs of the shared hashers.
 func (w *world) snapshot() string {
 	var b bytes.Buffer
-	for _, m := range w.msgs {
-		b.Write(m)
+	wr := func(x []byte) { // length-prefixed: a replaced list element of another length shows
+		fmt.Fprintf(&b, "[%d]", len(x))
+		b.Write(x)
 	}
+	for _, m := range w.msgs {
+		wr(m)
+		wr(m[len(m):cap(m)]) // whatever lies behind the message in its backing array
+	}
+	wr(w.msgArena)
+	wr(w.sigArena)
 	for i := range w.sks {
-		b.Write(w.sks[i].Encode())
-		b.Write(w.pks[i].Encode())
-		b.Write(w.pops[i])
-		b.Write(w.spock[i])
+		wr(w.sks[i].Encode())
+		wr(w.pks[i].Encode())
+		wr(w.pops[i])
+		wr(w.spock[i])
 		for _, s := range w.sigs[i] {
-			b.Write(s)
+			wr(s)
 		}
 	}
-	b.Write(w.aggSig)
-	b.Write(w.manySig)
-	for _, s := range w.batchBad {
-		b.Write(s)
+	wr(w.aggSig)
+	wr(w.manySig)
+	for _, l := range [][]crypto.PublicKey{w.aggKeys, w.manyKeys} {
+		for _, k := range l {
+			wr(k.Encode())
+		}
+	}
+	for _, m := range w.manyMsgs {
+		wr(m)
+	}
+	for _, bl := range w.batches {
+		for i := range bl.sigs {
+			wr(bl.sigs[i])
+			wr(bl.pks[i].Encode())
+		}
 	}
 	for k := 0; k < 2; k++ {
-		b.Write(w.esk[k].Encode())
-		b.Write(w.epk[k].Encode())
+		wr(w.esk[k].Encode())
+		wr(w.epk[k].Encode())
 		for _, s := range w.esig[k] {
-			b.Write(s)
+			wr(s)
 		}
 	}
-	b.Write(w.kmac.ComputeHash([]byte("probe")))
-	b.Write(w.kmac.SumHash())
-	b.Write(w.rawKmac.ComputeHash([]byte("probe")))
-	b.Write(w.rawKmac.SumHash())
+	wr(w.kmac.ComputeHash([]byte("probe")))
+	wr(w.kmac.SumHash())
+	wr(w.rawKmac.ComputeHash([]byte("probe")))
+	wr(w.rawKmac.SumHash())
 	return hex.EncodeToString(b.Bytes())
 }
 
@@ -285,16 +438,39 @@ func (Engine) Run(c *choice.Src, o engine.Opt) (out engine.Out) {
 		out.EventHash = engine.HexHash(evlog)
 		out.Fingerprint = engine.HashStrings(fp...)
 	}()
+	rc := drawRecipe(c)
 	rnd := c.Sub("inputs")
-	ref, err := setup(rnd)
+	mat, err := newMaterial(rc, rnd)
 	if err != nil {
 		viol("setup", "setup", "%v", err)
 		return
 	}
-	w, err := ref.fresh()
+	// reference world: sequential baseline and the "unchanged afterwards" comparison
+	ref, err := build(rc, mat)
+	if err != nil {
+		viol("setup", "setup", "%v", err)
+		return
+	}
+	// the concurrent run uses a second world with the same values but FRESH objects (lazily
+	// filled caches inside key objects are still empty, coordinates are whatever the
+	// library's arithmetic produced, nothing has been normalised by an earlier call)
+	w, err := build(rc, mat)
 	if err != nil {
 		viol("setup", "setup.fresh", "%v", err)
 		return
+	}
+	out.Params["recipe"] = fmt.Sprintf("%+v", rc)
+	if rc.arena {
+		out.Faults["shape.messages_share_backing_array"]++
+	}
+	if rc.sigArena {
+		out.Faults["shape.signatures_share_backing_array"]++
+	}
+	for _, k := range rc.derived {
+		out.Faults[[]string{"shape.key_aggregated", "shape.key_subtracted", "shape.key_threshold_share"}[k]]++
+	}
+	for _, k := range rc.batch {
+		out.Faults[[]string{"shape.batch_all_valid", "shape.batch_wrong_message", "shape.batch_identity_key", "shape.batch_empty_signature", "shape.batch_short_signature", "shape.batch_long_signature"}[k]]++
 	}
 	// workload mix (swarm): a subset of the operation kinds is enabled per run
 	var enabled []string
@@ -312,10 +488,10 @@ func (Engine) Run(c *choice.Src, o engine.Opt) (out engine.Out) {
 	for ti := range plans {
 		k := 1 + c.Choose(4, "nops")
 		for j := 0; j < k; j++ {
-			plans[ti] = append(plans[ti], op{name: enabled[c.Choose(len(enabled), "op")], a: c.Choose(3, "a"), b: c.Choose(4, "b")})
+			plans[ti] = append(plans[ti], op{name: enabled[c.Choose(len(enabled), "op")], a: c.Choose(8, "a"), b: c.Choose(8, "b")})
 		}
 	}
-	fp = append(fp, fmt.Sprint(ntasks, enabled))
+	fp = append(fp, fmt.Sprint(ntasks, enabled, rc))
 	// sequential baseline: each call alone (scheduler off)
 	base := map[op]string{}
 	baseHasher := hash.NewSHA3_256()
@@ -343,6 +519,8 @@ func (Engine) Run(c *choice.Src, o engine.Opt) (out engine.Out) {
 	panics := sim.Run()
 	out.SimTime["scheduler_steps"] += sim.Steps
 	out.SimTime["context_switches"] += sim.Switches
+	out.SimTime["go_objects_handed_to_C_and_reported_to_race_detector"] += sim.CArgs
+	out.SimTime["go_objects_modified_by_C"] += sim.CWrites
 	if sim.Switches > ntasks {
 		out.Nontrivial = true
 	}
